@@ -210,6 +210,7 @@ NORMALIZE_REL = os.environ.get("PSV_NO_NORMALIZE_REL") is None
 NORMALIZE_ALIAS = os.environ.get("PSV_NO_NORMALIZE_ALIAS") is None
 NORMALIZE_LOOPS = os.environ.get("PSV_NO_NORMALIZE_LOOPS") is None
 WALK_INTO_LAMBDAS = os.environ.get("PSV_WALK_LAMBDAS") is not None
+NORMALIZE_FOLD = os.environ.get("PSV_NO_NORMALIZE_FOLD") is None
 NORMALIZE_CALLS = os.environ.get("PSV_NO_NORMALIZE_CALLS") is None
 
 
@@ -989,6 +990,234 @@ class Program:
         self._maythrow = None
         if NORMALIZE_CALLS:
             self._inline_expression_functions()
+        if NORMALIZE_FOLD:
+            for _ in range(3):
+                if not self._fold_new_helpers():
+                    break
+
+    # N11: a helper that is not in the function inventory of the pinned tree (psv/inventory.json) — i.e. one that a later refactoring
+    #      extracted —, that is called from exactly one place and whose only `return` is its last statement, is folded back into its
+    #      caller: its statements (parameters substituted) replace the call statement, and its CFG is spliced into the caller's.
+    #      Functions of the inventory are never folded: the rules see today's tree as it is.
+    _KEYED = ("cond", "then", "else", "init", "inc", "body", "lhs", "sub", "rangeInit", "loopVarStmt", "value", "tryBlock")
+
+    def _fold_new_helpers(self):
+        try:
+            inv = set(json.load(open(os.path.join(VERIF, "psv", "inventory.json"))))
+        except (OSError, ValueError):
+            return False
+        changed = False
+        for unit, fmap in self.variants.items():
+            funcs = list(fmap.values())
+            new = {g.usr: g for g in funcs if g.file.startswith(REPO) and g.kind == "function" and g.cfg and g.body is not None and g.body >= 0
+                   and "%s:%s" % (os.path.basename(g.file), g.name) not in inv and not g.d.get("folded")}
+            if not new:
+                continue
+            sites = {}
+            for f in funcs:
+                if not f.file.startswith(REPO) or not f.cfg:
+                    continue
+                for i, cal in f.calls():
+                    if cal and cal.get("usr") in new:
+                        sites.setdefault(cal["usr"], []).append((f, i))
+                for i in f.walk():
+                    n = f.nodes[i]
+                    if n["k"] == "DeclRefExpr" and (n["decl"].get("fn") or {}).get("usr") in new and not (
+                            f.parent[i] >= 0 and "callee" in f.nodes[f.parent[f.parent[i]] if f.nodes[f.parent[i]]["k"] == "ImplicitCastExpr" else f.parent[i]]):
+                        sites.setdefault(n["decl"]["fn"]["usr"], []).append((f, -1))       # address taken: not a plain call
+            for usr, ss in sites.items():
+                if any(ci < 0 for _f, ci in ss):
+                    continue
+                # one call site in the source (several callers only as instantiations of one template)
+                if len({(f_.file, tuple(f_.nodes[ci]["loc"])) for f_, ci in ss}) != 1:
+                    continue
+                g = new[usr]
+                done = 0
+                for f, ci in ss:
+                    if f is g:
+                        continue
+                    try:
+                        if self._fold_one(f, ci, g):
+                            done += 1
+                    except (KeyError, IndexError, ValueError):
+                        pass
+                if done:
+                    g.d["folded"] = True
+                    changed = True
+        return changed
+
+    def _fold_one(self, f, ci, g):
+        TR = ("ImplicitCastExpr", "ParenExpr", "ExprWithCleanups", "MaterializeTemporaryExpr", "CXXBindTemporaryExpr")
+        STMT_PARENTS = ("CompoundStmt", "IfStmt", "ForStmt", "WhileStmt", "DoStmt", "CaseStmt", "DefaultStmt", "LabelStmt")
+        par = f.parent
+        # --- the statement that holds the call
+        top = ci
+        while par[top] >= 0 and f.nodes[par[top]]["k"] in TR:
+            top = par[top]
+        pk = f.nodes[par[top]]["k"] if par[top] >= 0 else None
+        lhs_node = None       # caller lvalue that receives the result (node id) ...
+        decl_target = None    # ... or the declaration it initialises
+        if pk in STMT_PARENTS:
+            S = top
+        elif pk == "BinaryOperator" and f.nodes[par[top]].get("op") == "=" and f.nodes[par[top]]["ch"][1] == top:
+            S = par[top]
+            while par[S] >= 0 and f.nodes[par[S]]["k"] in TR:
+                S = par[S]
+            if par[S] < 0 or f.nodes[par[S]]["k"] not in STMT_PARENTS:
+                return False
+            lhs_node = f.nodes[par[top]]["ch"][0]
+        elif pk == "DeclStmt" and len(f.nodes[par[top]]["decls"]) == 1 and f.nodes[par[top]]["decls"][0].get("init") == top:
+            S = par[top]
+            decl_target = f.nodes[S]["decls"][0]
+            if par[S] < 0 or f.nodes[par[S]]["k"] not in STMT_PARENTS:
+                return False
+        else:
+            return False
+        SP = par[S]
+        # --- the helper: statements, single trailing return
+        gb = g.nodes[g.body]
+        if gb["k"] != "CompoundStmt":
+            return False
+        kids = [x for x in gb["ch"] if x >= 0]
+        rets = [x for x in g.walk() if g.nodes[x]["k"] == "ReturnStmt"]
+        if len(rets) > 1 or (rets and (not kids or kids[-1] != rets[0])):
+            return False
+        if any(g.nodes[x]["k"] in ("LambdaExpr", "CXXTryStmt", "GotoStmt", "LabelStmt") for x in g.walk()):
+            return False
+        ret_expr = g.ch(rets[0])[0] if rets and g.ch(rets[0]) else -1
+        if (lhs_node is not None or decl_target is not None) and ret_expr < 0:
+            return False
+        args = [a for a in f.nodes[ci]["ch"][1:]]
+        if f.nodes[ci]["k"] != "CallExpr" or len(args) != len(g.params) or any(a < 0 for a in args):
+            return False
+        # --- parameters: read-only ones are replaced by the argument; one that the helper modifies must be the variable that also
+        #     receives the result (`x = helper(.., x, ..)` with `return x_param;`)
+        written = set()
+        for x in g.walk():
+            n = g.nodes[x]
+            tgt = None
+            if n["k"] in ("BinaryOperator", "CompoundAssignOperator") and n.get("op", "").endswith("=") and n["op"] not in ("==", "!=", "<=", ">="):
+                tgt = g.strip(n["ch"][0])
+            elif n["k"] == "UnaryOperator" and n.get("op") in ("++", "--", "&"):
+                tgt = g.strip(n["ch"][0])
+            if tgt is not None and g.nodes[tgt]["k"] == "DeclRefExpr" and g.nodes[tgt]["decl"].get("kind") == "ParmVar":
+                written.add(g.nodes[tgt]["decl"]["id"])
+        pidx = {p_["id"]: k for k, p_ in enumerate(g.params)}
+        alias = {}
+        for pid_ in written:
+            k = pidx.get(pid_)
+            if k is None:
+                return False
+            a = f.strip(args[k])
+            re_ = g.strip(ret_expr) if ret_expr >= 0 else -1
+            l = f.strip(lhs_node) if lhs_node is not None else -1
+            if not (f.nodes[a]["k"] == "DeclRefExpr" and l >= 0 and f.nodes[l]["k"] == "DeclRefExpr" and
+                    f.nodes[a]["decl"].get("id") == f.nodes[l]["decl"].get("id") and re_ >= 0 and
+                    g.nodes[re_]["k"] == "DeclRefExpr" and g.nodes[re_]["decl"].get("id") == pid_):
+                return False
+            alias[pid_] = dict(f.nodes[a]["decl"])
+
+        def pure(a):
+            return not any(f.nodes[x]["k"] in ("CompoundAssignOperator", "CXXNewExpr", "CXXDeleteExpr", "CXXThrowExpr", "LambdaExpr") or
+                           (f.nodes[x]["k"] == "BinaryOperator" and f.nodes[x].get("op") == "=") or
+                           (f.nodes[x]["k"] == "UnaryOperator" and f.nodes[x].get("op") in ("++", "--")) or
+                           "callee" in f.nodes[x] for x in f.walk(a))
+        if not all(pure(a) for k, a in enumerate(args) if g.params[k]["id"] not in alias):
+            return False
+        # --- CFG position of the call statement: one block, contiguous elements
+        sub = set(f.walk(S))
+        where = [(b["id"], j) for b in f.cfg["blocks"] for j, e in enumerate(b["elems"]) if e.get("kind") == "stmt" and e.get("n") in sub]
+        if not where or len(set(b for b, _ in where)) != 1:
+            return False
+        bid = where[0][0]
+        js = sorted(j for _, j in where)
+        if js != list(range(js[0], js[-1] + 1)):
+            return False
+        # --- copy the helper's nodes
+        off = len(f.nodes)
+        idshift = 100000 + off
+        for x, n in enumerate(g.nodes):
+            nn = dict(n)
+            nn["ch"] = [c + off if c >= 0 else c for c in n["ch"]]
+            for key in self._KEYED:
+                if isinstance(nn.get(key), int) and nn[key] >= 0:
+                    nn[key] = nn[key] + off
+            if "decls" in nn:
+                nn["decls"] = [dict(d, **({"init": d["init"] + off} if d.get("init", -1) >= 0 else {}),
+                                    **({"id": d["id"] + idshift} if "id" in d else {}),
+                                    **({"extents": [e + off if e >= 0 else e for e in d["extents"]]} if d.get("extents") else {})) for d in nn["decls"]]
+            if nn["k"] == "DeclRefExpr" and nn["decl"].get("kind") in ("Var", "ParmVar"):
+                nn["decl"] = dict(nn["decl"], id=nn["decl"]["id"] + idshift)
+            nn["origLoc"] = n.get("loc")
+            nn["loc"] = f.nodes[S]["loc"]
+            nn["f"] = f.nodes[S].get("f")
+            nn["foldedFrom"] = g.name
+            f.nodes.append(nn)
+        used = set()
+        for x, n in enumerate(g.nodes):
+            if n["k"] == "DeclRefExpr" and n["decl"].get("kind") == "ParmVar" and n["decl"].get("id") in pidx:
+                nn = f.nodes[x + off]
+                pid_ = n["decl"]["id"]
+                if pid_ in alias:
+                    nn["decl"] = dict(alias[pid_])
+                else:
+                    k = pidx[pid_]
+                    nn["k"] = "ParenExpr"
+                    nn["argOf"] = g.params[k]["name"]
+                    nn["ch"] = [args[k] if k not in used else f._copy_subtree(args[k])]
+                    used.add(k)
+        body_kids = [k + off for k in kids if not (rets and k == rets[0])]
+        extra_elems = []
+        if ret_expr >= 0 and not (alias and g.nodes[g.strip(ret_expr)]["decl"].get("id") in alias if g.nodes[g.strip(ret_expr)]["k"] == "DeclRefExpr" else False):
+            loc = dict(loc=f.nodes[S]["loc"], f=f.nodes[S].get("f"))
+            if lhs_node is not None:
+                f.nodes.append(dict(k="BinaryOperator", op="=", ch=[lhs_node, ret_expr + off], t=f.nodes[lhs_node].get("t"), synthetic=True, **loc))
+                body_kids.append(len(f.nodes) - 1)
+                extra_elems.append(len(f.nodes) - 1)
+            elif decl_target is not None:
+                decl_target["init"] = ret_expr + off
+                body_kids.append(S)
+                extra_elems.append(S)
+        f.nodes.append(dict(k="CompoundStmt", ch=body_kids, loc=f.nodes[S]["loc"], f=f.nodes[S].get("f"), synthetic=True, foldedFrom=g.name))
+        C_ = len(f.nodes) - 1
+        spn = f.nodes[SP]
+        spn["ch"] = [C_ if x == S else x for x in spn["ch"]]
+        for key in self._KEYED:
+            if spn.get(key) == S:
+                spn[key] = C_
+        # --- splice the CFGs
+        blocks = f.cfg["blocks"]
+        B = next(b for b in blocks if b["id"] == bid)
+        boff = max(b["id"] for b in blocks) + 1
+        gexit, gentry = g.cfg["exit"], g.cfg["entry"]
+        B2 = dict(id=boff + max(b["id"] for b in g.cfg["blocks"]) + 1, elems=[dict(kind="stmt", n=x) for x in extra_elems] + B["elems"][js[-1] + 1:],
+                  succ=B["succ"], noReturn=B.get("noReturn", False))
+        for key in ("term", "termCond"):
+            if key in B:
+                B2[key] = B.pop(key)
+        B["elems"] = B["elems"][:js[0]]
+        B["succ"] = [gentry + boff]
+        B["noReturn"] = False
+        drop = set()
+        if rets:
+            drop = {rets[0] + off}
+            if ret_expr >= 0 and g.nodes[g.strip(ret_expr)]["k"] == "DeclRefExpr":
+                drop |= {x + off for x in g.walk(ret_expr)}
+        for gbk in g.cfg["blocks"]:
+            if gbk["id"] == gexit:
+                continue
+            nb = dict(id=gbk["id"] + boff, elems=[dict(e, n=e["n"] + off) if e.get("kind") == "stmt" and e.get("n", -1) >= 0 else dict(e) for e in gbk["elems"]
+                                                  if not (e.get("kind") == "stmt" and e.get("n", -1) + off in drop)],
+                      succ=[(B2["id"] if s_ == gexit else s_ + boff) if s_ >= 0 else s_ for s_ in gbk["succ"]], noReturn=gbk.get("noReturn", False))
+            for key in ("term", "termCond"):
+                if key in gbk and gbk[key] is not None and gbk[key] >= 0:
+                    nb[key] = gbk[key] + off
+            blocks.append(nb)
+        blocks.append(B2)
+        f._blocks = None
+        f._parent = None
+        f.d.setdefault("foldedHelpers", []).append(g.name)
+        return True
 
     # N7: a call to a function of the repository whose whole body is `return <expression>;` (a free or static function, or a lambda that
     #     the caller defines) is replaced by that expression with the arguments substituted — provided the arguments have no side
